@@ -14,7 +14,7 @@ Ltac evv := cbn [prog_env eval_args callee_init finish_call copy_in copy_out try
 Record rvl := { l_buf : val; l_e : val; l_err : val; l_ps : val; l_v : val; l_vt : val }.
 Definition rv (fr : region) (fo : Z) (l : rvl) (sh bv : val) (s o : list Z) : state :=
   {| vars := [("file", VPtr fr fo); ("handle", VNull); ("buf", l_buf l); ("e", l_e l); ("err", l_err l); ("packed_size", l_ps l); ("v", l_v l); ("vt", l_vt l);
-              ("*handle", sh); (budget_var, bv)]%string; inb := s; outb := o |}.
+              ("$a1", VUndef); ("$a2", VUndef); ("$a3", VUndef); ("*handle", sh); (budget_var, bv)]%string; inb := s; outb := o |}.
 
 Lemma byte_tail b (s : list Z) : Forall byte (b :: s) -> 0 <= b <= 255 /\ Forall byte s.
 Proof. intros H. inversion H as [|? ? Hb Ht]; subst. split; [exact Hb|exact Ht]. Qed.
